@@ -412,14 +412,16 @@ def run():
         # order independence for every graph on 5 layouts: the Coq function order_independent_slice run by the extracted code,
         # 16 slices in parallel; by RoutesSweep.slices_cover all slices true => order_independent_upto 5 = true.
         # Since RoutesGeneral.order_independent_upto_all proves this for every n, the sweep is a cross-check of the extraction only.
+        # (4 of the 16 slices per run, chosen by the seed, now that the general theorem covers every n)
         from concurrent.futures import ThreadPoolExecutor
-        with ThreadPoolExecutor(16) as ex:
-            outs = list(ex.map(lambda k: core.model(['routesweep 5 %d 16' % k], 3000)[0], range(16)))
+        slices5 = sorted(set((chk.seed + 4 * j) % 16 for j in range(4)))
+        with ThreadPoolExecutor(4) as ex:
+            outs = list(ex.map(lambda k: core.model(['routesweep 5 %d 16' % k], 3000)[0], slices5))
         sweep5 = all(o == '1' for o in outs)
-        chk.cov['certificates_checked'] += 16
+        chk.cov['certificates_checked'] += len(slices5)
         if not sweep5:
             chk.violation('layout._makeConnectionMap:order-dependent-on-5-layouts', 'the route model depends on the set iteration order for some graph on 5 layouts '
-                          '(slices %r of 16 fail)' % [k for k, o in enumerate(outs) if o != '1'],
+                          '(slices %r of 16 fail)' % [k for k, o in zip(slices5, outs) if o != '1'],
                           {'kind': 'model', 'theorem': 'RoutesSweep.slices_cover / order_independent_upto 5', 'slices': outs}, no_input=True)
     chk.assumptions += ['each rank is a deterministic function of its inputs and of the results of its collectives (checked: traces identical '
                         'across arrival orders)', 'a real MPI library behaves as the standard specifies for matched collectives (progress engine, '
